@@ -691,19 +691,22 @@ LATTICE_TB = [
 
 PROPS = {
     "C14": {
-        "modules": ["Vibrato.Props.C14"],
+        "modules": ["Vibrato.Props.C14", "Vibrato.Props.C14compile"],
         "theorems": ["Vibrato.C14.write_dictionary_ok", "Vibrato.C14.write_dictionary_panics", "Vibrato.C14.lex_rows",
                      "Vibrato.C14.lex_rows_parse", "Vibrato.C14.unk_rows", "Vibrato.C14.unk_rows_grouped",
                      "Vibrato.C14.unk_rows_parse", "Vibrato.C14.ids_in_dims", "Vibrato.C14.matrix_rows_sorted",
                      "Vibrato.C14.user_policy", "Vibrato.C14.cost_is_truncation", "Vibrato.C14.cost_fits_i16",
-                     "Vibrato.C14.cost_antitone", "Vibrato.C14.emitted_compiles_partial"],
+                     "Vibrato.C14.cost_antitone", "Vibrato.C14.emitted_compiles_partial",
+                     # "the emitted files always compile", in full
+                     "Vibrato.C14.matrix_def_parses_back", "Vibrato.C14.unk_def_parses_back", "Vibrato.C14.emitted_compiles",
+                     "Vibrato.C14.emitted_files_compile"],
         "streams": with_cli(train_streams("C14", 40, 2000), {"train": train_classifier("C14")}, (), 12, 400),
         "rule": "tiny training set-ups (3-8 lexicon rows with homographs and quoted surfaces, generated char.def/unk.def, feature.def "
                 "with 1-4 unigram and 1-12 bigram templates incl. ? forms and %t, a few rewrite rules, <= 10 sentences) trained with "
                 "the real rucrf; per model 4 generate cases (reloaded image, with/without user lexicon, image written after "
                 "read_user_lexicon) + 1 re-encoding; all seven emitted files compared byte for byte with the Lean model",
         "trusted_base": TRAINER_TB,
-        "assumptions": ["emitted_compiles is proved for lex.csv read-back + id ranges (partial: matrix.def/char.def text parsers go through String.fromUTF8?)"],
+        "assumptions": ["side conditions of emitted_compiles (each with a kernel-checked witness in Props/C14compile.lean): at least one seed row, no surface with U+0000, at most 65534 classes per side, category names without `,` `\"` line break and non-empty (finding F22), the char.def accepted by the parser and defining the categories used, no BOM at the start of the emitted files"],
     },
     "C15": {
         "modules": ["Vibrato.Props.C15"],
@@ -800,14 +803,20 @@ PROPS = {
         "assumptions": ["characters above U+FFFF read table entry 0 (finding F13), mirrored by the model"],
     },
     "C06": {
-        "modules": ["Vibrato.Props.C06map", "Vibrato.Props.C06"],
+        "modules": ["Vibrato.Props.C06map", "Vibrato.Props.C06", "Vibrato.Props.C06refine"],
         "theorems": ["Vibrato.lattice_relabel", "Vibrato.tokens_relabel", "Vibrato.relabel_node_spec", "Vibrato.mapIds_tokenize",
                      "Vibrato.mapIds_cost", "Vibrato.mapIds_feature", "Vibrato.history_tokenize", "Vibrato.history_invariant",
                      "Vibrato.f3_pinned_breaks_history",
                      "Vibrato.Mapper.parse_ok_iff", "Vibrato.Mapper.parse_err_iff", "Vibrato.Mapper.parse_bijection",
                      "Vibrato.Mapper.matrix_cost_map", "Vibrato.Mapper.raw_cost_map", "Vibrato.Mapper.dual_cost_map",
                      "Vibrato.Mapper.conn_cost_map_fn", "Vibrato.Mapper.mapIds_total", "Vibrato.Mapper.map_compose",
-                     "Vibrato.Mapper.unfixed_wrong_length_panics", "Vibrato.Mapper.unfixed_second_map_mistranslates"],
+                     "Vibrato.Mapper.unfixed_wrong_length_panics", "Vibrato.Mapper.unfixed_second_map_mistranslates",
+                     # refinement: the concrete dictionary model compared with the code (DictM) refines the abstract mapper
+                     # model that carries the C06/C13 theorems (commuting squares, lifted to histories)
+                     "Vibrato.Refine.mapIds_commutes", "Vibrato.Refine.resetUser_commutes", "Vibrato.Refine.history_commutes",
+                     "Vibrato.Refine.applyOps_commutes", "Vibrato.Refine.map_compose_refined", "Vibrato.Refine.history_costs_refined",
+                     "Vibrato.Refine.user_translated_by_all", "Vibrato.Refine.history_tokenize_refined",
+                     "Vibrato.Refine.mapperAgree_true"],
         "streams": with_cli(tok_streams("c06", 300, 10000, tok2_classifier("C06", has_dops)), {}, ("map-",), 12, 400),
         "rule": "random histories of {map (valid permutations and malformed iterators: 0, duplicate, omission, short, long), "
                 "load user lexicon (incl. out-of-range ids), clear, write/read} followed by tokenization; tokens must equal those of "
